@@ -445,7 +445,8 @@ def _run(prop, args):
     corr_diffs = []
     impls = []
     impl_list = run_impls(prop, cases)
-    for case, impl in zip(cases, impl_list):
+    oracle_failed = set()
+    for cidx, (case, impl) in enumerate(zip(cases, impl_list)):
         impls.append(impl)
         evaluations += 1
         for b in prop.bucket(case, impl):
@@ -456,6 +457,7 @@ def _run(prop, args):
             samples.append({'case': case, 'impl': impl})
         fail = prop.oracle(case, impl)
         if fail is not None:
+            oracle_failed.add(cidx)
             sig = prop.signature(case, impl, fail)
             kf = match_known(pid, sig)
             if kf is not None:
@@ -472,8 +474,10 @@ def _run(prop, args):
             spans.append((len(reqs), len(reqs) + len(r)))
             reqs.extend(r)
         answers = driver.ask(reqs)
-        for (a, b), case, impl in zip(spans, cases, impls):
-            if b == a:
+        for cidx, ((a, b), case, impl) in enumerate(zip(spans, cases, impls)):
+            if b == a or cidx in oracle_failed:
+                # a case on which the property itself fails is reported through the oracle (as a
+                # violation or a known finding); the model describes the intended behaviour there
                 continue
             d = prop.compare(case, impl, answers[a:b])
             if d is not None:
